@@ -3,7 +3,8 @@
    with the per-call Waiter lemmas and refuted for the leaf that looks at the started flag first. *)
 From Coq Require Import List ZArith Bool Arith Lia.
 From PV Require Import Model.SchedTree Model.SchedLeafConc Model.Waiter Model.WaiterLeaf.
-From PV Require Import Proofs.SchedLeafConcProofs Proofs.WaiterProofs.
+From PV Require Import Proofs.SchedLeafConcProofs Proofs.WaiterProofs Model.WaiterPool Proofs.WaiterPoolProofs.
+From Coq Require Import Permutation.
 Import ListNotations.
 Local Open Scope Z_scope.
 
@@ -122,4 +123,32 @@ Lemma spec_first_b_true_iff ahead slow :
   spec_first_b ahead slow = true <-> (forall x, In x ahead -> x = true) /\ (forall x, In x slow -> x = true).
 Proof.
   unfold spec_first_b. rewrite andb_true_iff, !forallb_forall. tauto.
+Qed.
+
+(* ---------------------------------------------------------------------------------------- *)
+(* Soundness of the attribution-free criterion of the `first` cases: only SOME tokens of the profile are fired in
+   the observed instant (the others are still waited for), the profile really started at S, the harness counts
+   the configured offsets from an instant t0 <= S.  If every fired request is at or after the time of the token it
+   consumed, under any hand-out, then never_ahead_b holds against t0 + offsets: a 0 bit is an early shot. *)
+Lemma due_by_app x l r : (due_by x (l ++ r) = due_by x l + due_by x r)%nat.
+Proof. unfold due_by. rewrite filter_app, app_length. reflexivity. Qed.
+
+Lemma due_by_shift x t0 S offs : t0 <= S ->
+  (due_by x (map (fun o => (S + o)%Z) offs) <= due_by x (map (fun o => (t0 + o)%Z) offs))%nat.
+Proof.
+  intro H. unfold due_by. induction offs as [|o r IH]; cbn [map filter length]; [lia|].
+  destruct (S + o <=? x) eqn:E1.
+  - apply Z.leb_le in E1. assert (E2 : t0 + o <=? x = true) by (apply Z.leb_le; lia). rewrite E2. cbn [length]. lia.
+  - destruct (t0 + o <=? x); cbn [length]; lia.
+Qed.
+
+Lemma part_never_ahead : forall t0 S offs fired rest ats,
+  t0 <= S -> Permutation (fired ++ rest) (map (fun o => S + o) offs) -> Forall2 Z.le fired ats ->
+  never_ahead_b (map (fun o => t0 + o) offs) ats = true.
+Proof.
+  intros t0 S offs fired rest ats Ht Hp H. unfold never_ahead_b. apply forallb_forall. intros x _.
+  apply Nat.leb_le.
+  pose proof (due_by_paired fired ats x H) as H1.
+  pose proof (due_by_perm x _ _ Hp) as H2. rewrite due_by_app in H2.
+  pose proof (due_by_shift x t0 S offs Ht). lia.
 Qed.
